@@ -323,3 +323,7 @@ def c17_address_pattern_port(rp):           # fixed 9f68483: lookup with a port,
     return (rp.get('kind') == 'kh_address_pattern_port' and bool((rp.get('query') or [0, 0, 0])[2]) and
             any(is_addr(c) for ln in rp.get('lines', []) if isinstance(ln, dict) and not ln.get('skip') and not ln.get('hashed')
                 for c in ln.get('pattern', '').split(',')))
+
+
+def c15_ec_optional_public(rp):              # fixed b0ad5e9
+    return rp.get('group') == 'optional_fields ECPrivateKey optional publicKey/parameters'
